@@ -222,6 +222,50 @@ def r4_bounded_body(ck, F, R="C11-R4"):
 NONDET = ("std::collections::HashMap", "std::collections::HashSet", "std::collections::hash_map", "std::hash::RandomState", "std::time::", "std::thread::current", "std::thread::ThreadId", "rand::", "std::env::", "std::process::id", "getrandom")
 
 
+def _address_escapes(b, pl):
+    """does the integer obtained from a pointer flow anywhere but into tests (comparisons, branch conditions,
+    assertions and their panic messages)?  An address that only feeds a `debug_assert!(ptr as usize % align == 0)`
+    cannot influence results; one that is stored, returned or handed to another function can."""
+    if pl["p"]:
+        return True
+    from .common import _reads_in
+    tainted = {pl["l"]}
+    for _ in range(12):
+        grew = False
+        for site, st in b.sites():
+            if site.i is not None:
+                if st["s"] != "assign":
+                    continue
+                acc = []
+                _reads_in(st["rv"], acc)
+                if not any(l in tainted for l, k in acc):
+                    continue
+                if st["pl"]["p"] or st["pl"]["l"] == 0 or 1 <= st["pl"]["l"] <= b.arg_count:
+                    return True
+                if st["pl"]["l"] not in tainted:
+                    tainted.add(st["pl"]["l"])
+                    grew = True
+            else:
+                t = st
+                if t["t"] == "call":
+                    acc = []
+                    _reads_in(t["args"], acc)
+                    if any(l in tainted for l, k in acc):
+                        c = callee_of(t)
+                        n = callee_name(c) if c else ""
+                        if t.get("target") is None:
+                            continue      # a panic path: the message may print it, results cannot depend on it
+                        if n.rsplit("::", 1)[-1] in ("eq", "ne", "lt", "le", "gt", "ge", "cmp", "partial_cmp", "is_aligned", "fmt", "new_debug", "new_display", "new_v1", "new_const"):
+                            if not t["dest"]["p"] and t["dest"]["l"] not in tainted:
+                                tainted.add(t["dest"]["l"])
+                                grew = True
+                            continue
+                        return True
+        if not grew:
+            break
+    return False
+
+
 def r5_determinism(ck, F, R="C11-R5"):
     hits = []
     for b in F.user_bodies():
@@ -242,7 +286,7 @@ def r5_determinism(ck, F, R="C11-R5"):
             continue
         for s, st in b.sites():
             if s.i is not None and st["s"] == "assign" and st["rv"]["rv"] == "cast" and st["rv"]["ck"].startswith("PointerExposeProvenance"):
-                if not b.span_at(s).get("macros"):
+                if not b.span_at(s).get("macros") and _address_escapes(b, st["pl"]):
                     addr.append((b.path, b.loc(s)))
     ck.ob(R, "no-address-as-value", not addr, f"no pointer-to-integer cast in user code ({addr})", config=F.config, nontrivial=False)
 
